@@ -723,6 +723,12 @@ impl Server for GitSyncServer {
                 self.undo_last_commit()?;
                 self.reset_to_remote()?;
                 self.read_meta()?;
+                // A push can report failure although the remote did take it (the connection
+                // broke after the branch was updated): the version is then the remote's latest
+                // one and has been accepted, so it must not be reported as rejected.
+                if self.meta.latest_version == version_id {
+                    break;
+                }
                 // The remote may have moved for another reason than a new version (a snapshot
                 // or a cleanup by another replica), in which case the parent is still the
                 // latest version and this version must not be rejected: try again.
